@@ -5,7 +5,7 @@
    pass M - and, when Emit is set, the extending action writes the list as one case: the
    SELECT statement as token records, the field expressions alone (one per output column, for
    the driver to ask the real code for each column's own name), the abstract description.   *)
-EXTENDS Columns, Tok, Json, CSV, IOUtils
+EXTENDS Columns, Tok, Dict, Json, CSV, IOUtils
 
 CONSTANTS N,         \* maximal number of fields
           Names,     \* default names of reference-like fields
@@ -60,6 +60,7 @@ ExprToks(fd) ==
     [] fd.f = "neg"    -> <<P("-"), IdT(fd.n)>>
     [] fd.f = "arith2" -> <<Id("a"), P("+"), Id("a_1")>>
     [] fd.f = "lit"    -> <<Int("1")>>
+    [] fd.f = "dcall"  -> <<QId(fd.n), PT("("), IdT("v"), PT(","), Id("h"), PT(","), Int("2"), PT(")")>>
     [] fd.f = "call"   -> IF fd.n \in {"top", "bottom"}
                           THEN <<Id(fd.n), PT("("), IdT("v"), PT(","), Int("2"), PT(")")>>
                           ELSE <<Id(fd.n), PT("("), IdT("v"), PT(")")>>
@@ -105,6 +106,21 @@ Step == /\ Len(fields) < N
         /\ UNCHANGED <<tm, into>>
 Next == Step
 Spec == Init /\ [][Next]_vars
+
+\* The source dictionary (Dict.tla): every string constant of the tree under check as the name of a call with a
+\* tag-like second argument - alone, twice, next to a reference, aliased.  A call is ONE output column whatever its name,
+\* except top() and bottom() (which the forms above cover): code that gives a further function extra columns, or names
+\* its column specially, spells the function's name in its source.
+DictWords == {w \in DictStrs : w \notin {"top", "bottom", "TOP", "BOTTOM", "Top", "Bottom"}}
+DCall(w, a) == Fd("dcall", w, a, <<>>)
+DLists(w) == {<<DCall(w, "")>>, <<DCall(w, ""), DCall(w, "")>>, <<Fd("ref", "a", "", <<>>), DCall(w, ""), Fd("ref", "h", "", <<>>)>>,
+              <<DCall(w, "a"), Fd("ref", "a", "", <<>>)>>, <<Fd("top", "top", "", <<"h">>), DCall(w, "")>>}
+DStep == /\ fields = <<>>
+         /\ \E w \in DictWords : \E fs \in DLists(w) :
+              /\ fields' = fs
+              /\ CSVWrite("%1$s", <<ToJson(Case(fs, tm, into))>>, CaseFile)
+         /\ UNCHANGED <<tm, into>>
+DSpec == Init /\ [][DStep]_vars
 
 \* --------------------------------------------------------------- pass M
 Cols == ColumnNamesImpl(fields, into, OmitOf(tm), EffAlias(tm))
